@@ -191,6 +191,11 @@ def check(prop, cfg, tier, seed, replay=None):
             tags["%s:%s" % (r["component"], k)] = tags.get("%s:%s" % (r["component"], k), 0) + v
         samples += st.get("samples", [])[:3]
         distinct_nt += st.get("distinct_nontrivial", 0)
+    if len(tags) > 400:   # keep the evidence file small: most frequent tags only
+        keep = sorted(tags.items(), key=lambda kv: -kv[1])[:400]
+        tags = dict(keep)
+        tags["(other tags omitted)"] = 1
+    samples = [s if len(str(s)) <= 600 else str(s)[:600] + "…" for s in samples]
     if not samples:
         samples = thms[:5] or ["(no correspondence stream ran)"]
     ev = {
